@@ -183,6 +183,12 @@ def run(ctx):
             tw["AtwinA"] = copy.deepcopy(blk)
             tw["holder"] = {"zz": 1, "inner": copy.deepcopy(blk), "aa": [copy.deepcopy(blk)]}
             trees.append(tw)
+    for depth in range(9, 20):
+        # deep nesting (beyond any recursion guard one might think of): unsorted keys at every level
+        t = {"z": depth, 7: 0, "a": 1, 3: [{"q": 1, "b": 2}]}
+        for lv in range(depth):
+            t = {"z": lv, 7: 0, "sub": t, "a": 1, 3: 2}
+        trees.append(t)
     if ctx.tier == "thorough":
         pool = [2, -1, 10, "a", "B", "ab"]
         for n in range(0, 5):
